@@ -283,7 +283,7 @@ fn run_shard(
         cases: cases as u32,
         failure_persistence: None,
         rng_seed: RngSeed::Fixed(seed),
-        max_shrink_iters: 2500,
+        max_shrink_iters: 6000,
         ..Config::default()
     };
     let mut runner = TestRunner::new(config);
